@@ -19,7 +19,7 @@ EXTRACT = ["C15"]
 BINS = ["c15"]
 NEEDS_CICADA = True
 ALLOWED_AXIOMS = []
-PINNED = ["C15_args", "C15_args_newline_refuted", "C15_func_status_refuted", "C15_sete_flat",
+PINNED = ["C15_args", "C15_args_newline_refuted", "C15_func_status", "C15_sete_flat",
           "C15_sete_nested_refuted", "C15_full", "C15_refuted"]
 TRUSTED = [
     "Coq 8.16.1 kernel (coqc; coqchk in thorough); vm_compute in Example witnesses and in C15_sete_nested_refuted",
@@ -112,11 +112,10 @@ def gen_l2(ctx, hp, workdir_token):
                     cases.append(dict(files={"main.sh": text}, main="main.sh", args=[], expect=(good, 0), known=None, tag="func-ok"))
                 else:
                     bad = good[:3] + [["@x0", "probe", "s0"]]
-                    cases.append(dict(files={"main.sh": text}, main="main.sh", args=[], expect=(good, 0),
-                                      known=("func-status-zero", (bad, 0)), tag="func-status"))
+                    cases.append(dict(files={"main.sh": text}, main="main.sh", args=[], expect=(good, 0), known=None, tag="func-status"))
     # function call as the last command: status of the script
     cases.append(dict(files={"main.sh": "function f {\n%s\n}\nf\n" % H(4, "fm")}, main="main.sh", args=[],
-                      expect=([["@x4", "fm"]], 4), known=("func-status-zero", ([["@x4", "fm"]], 0)), tag="func-last"))
+                      expect=([["@x4", "fm"]], 4), known=None, tag="func-last"))
     # (c) source: functions, variables persist; chain to depth 3; status of source = last command of the file
     for depth in (1, 2, 3):
         for st in (0, 5):
